@@ -790,7 +790,8 @@ func (pm *ProtocolManager) handleTxsMsg(msg *p2p.Msg) error {
 			continue
 		}
 
-		go func() {
+		// the loop variable is shared by all iterations: hand each goroutine its own transaction
+		go func(tx *types.Transaction) {
 			// 判断接收到的交易是否在本分支已经存在
 			currentBlock := pm.chain.CurrentBlock()
 			isExist := pm.txGuard.ExistTx(currentBlock.Hash(), tx)
@@ -800,7 +801,7 @@ func (pm *ProtocolManager) handleTxsMsg(msg *p2p.Msg) error {
 					subscribe.Send(subscribe.NewTx, tx)
 				}
 			}
-		}()
+		}(tx)
 	}
 	return nil
 }
